@@ -152,3 +152,60 @@ pub fn replay(a: &Args) -> Report {
   }
   rep
 }
+
+/// `vh thread-clients --seed S` (C04): independent clients are independent also when each runs on
+/// its own thread and the share is the FIRST thing that thread ever does: evaluation points of
+/// clients that agree on (measurement, epoch, threshold) are pairwise distinct and their shares combine.
+pub fn thread_clients(a: &Args) -> Report {
+  let mut rep = Report::new("thread-clients");
+  let seed = a.u64("seed", 1);
+  for case in 0..6u64 {
+    let t: u32 = 2 + (case % 3) as u32;
+    let m: Vec<u8> = format!("threaded measurement {seed} {case}").into_bytes();
+    let e: Vec<u8> = vec![case as u8];
+    let n = 8usize;
+    let handles: Vec<_> = (0..n)
+      .map(|k| {
+        let (m, e) = (m.clone(), e.clone());
+        std::thread::spawn(move || {
+          let mg = MessageGenerator::new(SingleMeasurement::new(&m), t, &e);
+          let mut rnd = [0u8; 32];
+          mg.sample_local_randomness(&mut rnd);
+          let r = std::panic::catch_unwind(std::panic::AssertUnwindSafe(|| {
+            if k % 2 == 0 {
+              Message::generate(&mg, &rnd, None).ok().map(|x| (x.share.to_bytes(), x.tag.clone()))
+            } else {
+              mg.share_with_local_randomness().ok().map(|w| (w.share.to_bytes(), w.tag.to_vec()))
+            }
+          }));
+          r.ok().flatten()
+        })
+      })
+      .collect();
+    let res: Vec<Option<(Vec<u8>, Vec<u8>)>> = handles.into_iter().map(|h| h.join().ok().flatten()).collect();
+    rep.evaluations += n as u64;
+    let ctx = json!({"case": case, "threshold": t, "threads": n});
+    let shares: Vec<Vec<u8>> = res.iter().flatten().map(|x| x.0.clone()).collect();
+    if shares.len() < n {
+      rep.violation("C04", "Message::generate", "threads:generation-failed", "a client thread could not produce a share".into(), ctx.clone());
+      continue;
+    }
+    let mut xs: Vec<Vec<u8>> = shares.iter().filter_map(|b| layout(b).map(|l| b[l.s.0..l.s.0 + 24].to_vec())).collect();
+    xs.sort();
+    xs.dedup();
+    if xs.len() != n {
+      rep.violation("C04", "Commune::share", "threads:repeated-share-point",
+        format!("{} clients on separate threads produced only {} distinct evaluation points", n, xs.len()), ctx.clone());
+    }
+    let dec: Vec<Share> = shares.iter().filter_map(|b| Share::from_bytes(b)).take(t as usize).collect();
+    if !matches!(guard(|| share_recover(&dec).is_ok()), Guard::Done(true)) {
+      rep.violation("C04", "share_recover", "threads:shares-do-not-combine",
+        "shares of clients on separate threads do not combine".into(), ctx.clone());
+    } else {
+      rep.nontrivial(format!("threads:{case}"));
+    }
+  }
+  rep.sample(json!({"threads_per_case": 8, "cases": 6}));
+  rep.traces = 1;
+  rep
+}
